@@ -64,7 +64,7 @@ func (r *c12Run) fn(_ avfs.VFSBase, fn avfs.FnVFS, fp *failfs.FailParam) error {
 	name := fn.String()
 	r.log = append(r.log, c12Consult{fn: name, call: r.callIdx})
 	if i == r.failAt || (r.failFn != "" && name == r.failFn) {
-		r.snapAt = fsx.Snap(r.base, "/", fsx.SnapOpts{Mtime: true}).String()
+		r.snapAt = c12Snap(r.base, fsx.SnapOpts{Mtime: true}).String()
 		r.injCall, r.injFn = r.callIdx, name
 		// the class of the injected error varies with the plan: composites decide about retries and fall-backs with
 		// errors.Is(err, fs.ErrNotExist / fs.ErrPermission / fs.ErrExist)
@@ -78,6 +78,24 @@ func (r *c12Run) fn(_ avfs.VFSBase, fn avfs.FnVFS, fp *failfs.FailParam) error {
 	}
 	return nil
 }
+
+// c12Snap takes the monitor's snapshot as the administrator, whoever the history made the acting user meanwhile
+// (the identity is view state of the base, which the wrapper forwards to; the tree is what the monitor is about).
+func c12Snap(v avfs.VFS, o fsx.SnapOpts) *fsx.Snapshot {
+	u := v.User()
+	if u != nil && !u.IsAdmin() {
+		_ = v.SetUser(c12Admin{})
+		defer func() { _ = v.SetUser(u) }()
+	}
+	return fsx.Snap(v, "/", o)
+}
+
+type c12Admin struct{}
+
+func (c12Admin) Name() string  { return "root" }
+func (c12Admin) Uid() int      { return 0 }
+func (c12Admin) Gid() int      { return 0 }
+func (c12Admin) IsAdmin() bool { return true }
 
 func c12Setup(fsType string, sa, sb uint64) (avfs.VFS, gen.Cfg) {
 	base := newBase(fsType)
@@ -93,8 +111,23 @@ func c12GenHistory(fsType string, sa, sb uint64, r *rand.Rand, n int) []fsx.Op {
 	g := gen.New(cfg, r)
 	env := fsx.NewEnv(base)
 	var ops []fsx.Op
+	// in one history out of three the acting identity changes on the way, twice under the same name with other ids
+	// (an account deleted and created again): who the wrapper acts as is who its base would act as
+	ids := map[int]fsx.Op{}
+	if r.IntN(3) == 0 {
+		ids[2+r.IntN(3)] = fsx.Op{K: "SetUser", P: "dup", N: 1001, M: 1001}
+		ids[6+r.IntN(3)] = fsx.Op{K: "SetUser", P: "dup", N: 1002, M: 1003}
+		ids[10+r.IntN(3)] = fsx.Op{K: "SetUser", P: "root", N: 0, M: 0}
+	}
 	for len(ops) < n {
-		s := fsx.Snap(base, "/", fsx.SnapOpts{})
+		if o, ok := ids[len(ops)]; ok {
+			delete(ids, len(ops))
+			env.Exec(o)
+			ops = append(ops, o, fsx.Op{K: "User"}, fsx.Op{K: "WriteFile", P: "/tmp/by-" + fmt.Sprint(o.N), Data: "x", Perm: 0o644}, fsx.Op{K: "Lstat", P: "/tmp/by-" + fmt.Sprint(o.N)})
+			env.Exec(ops[len(ops)-2])
+			continue
+		}
+		s := c12Snap(base, fsx.SnapOpts{})
 		cwd, _ := base.Getwd()
 		g.Observe(s.Recs, cwd)
 		o := g.Next()
@@ -175,7 +208,7 @@ func c12History(c *rt.Ctx, fsType string, h int) {
 		if o.K == "CreateTemp" || o.K == "MkdirTemp" {
 			continue // random names: the harness call that follows removes them on both sides
 		}
-		sa1, sb1 := fsx.Snap(base, "/", fsx.SnapOpts{}), fsx.Snap(twin, "/", fsx.SnapOpts{})
+		sa1, sb1 := c12Snap(base, fsx.SnapOpts{}), c12Snap(twin, fsx.SnapOpts{})
 		if sa1.String() != sb1.String() {
 			c.Disagree(fmt.Sprintf("ok-plan|%s|%s|effect-differs", fsType, o.K), fmt.Sprintf("FailFS(%s) with the always-OK function: after %s the base differs from a twin driven directly: %v", fsType, o, fsx.Diff(sa1, sb1, false, 5)), replay("ok", i))
 			return
@@ -259,7 +292,7 @@ func c12History(c *rt.Ctx, fsType string, h int) {
 				break
 			}
 			c.Rep.Case(sig+"|"+res.Err, true)
-			after := fsx.Snap(base, "/", fsx.SnapOpts{Mtime: true}).String()
+			after := c12Snap(base, fsx.SnapOpts{Mtime: true}).String()
 			if after != fr.snapAt {
 				c.Disagree(sig+"|base-changed-after-injection", fmt.Sprintf("FailFS(%s): %s with %s failing: the base changed after the failure was injected: %v", fsType, o, fr.injFn, diffText(fr.snapAt, after)), replay(plan, i))
 			}
@@ -300,7 +333,7 @@ func c12History(c *rt.Ctx, fsType string, h int) {
 		all = append(all, fsx.Op{K: "CreateTemp", P: "/tmp", Q: "t*", H: 5}, fsx.Op{K: "F.Write", H: 5, Data: "zz"}, fsx.Op{K: "F.Read", H: 5, N: 2}, fsx.Op{K: "F.Truncate", H: 5, N: 1}, fsx.Op{K: "F.Close", H: 5})
 		for i, o := range all {
 			fr.callIdx = i
-			before := fsx.Snap(base, "/", fsx.SnapOpts{Mtime: true}).String()
+			before := c12Snap(base, fsx.SnapOpts{Mtime: true}).String()
 			fr.injCall = -1
 			res := c12Exec(fr.env, base, o)
 			if fatalRes(res) {
@@ -315,7 +348,7 @@ func c12History(c *rt.Ctx, fsType string, h int) {
 				c.Disagree(sig+"|not-refused:"+res.Err, fmt.Sprintf("FailFS(%s) told to fail every %s: %s returns %s instead of the injected error", fsType, fnName, o, res), replay("always fail "+fnName, min3(i, len(text)-1)))
 				continue
 			}
-			after := fsx.Snap(base, "/", fsx.SnapOpts{Mtime: true}).String()
+			after := c12Snap(base, fsx.SnapOpts{Mtime: true}).String()
 			if after != before {
 				c.Disagree(sig+"|base-changed", fmt.Sprintf("FailFS(%s) told to fail every %s: %s fails as told but the base changed: %v", fsType, fnName, o, diffText(before, after)), replay("always fail "+fnName, min3(i, len(text)-1)))
 			}
@@ -329,9 +362,9 @@ func c12History(c *rt.Ctx, fsType string, h int) {
 					_ = base.WriteFile("/w/verif-sub-file", []byte("x"), 0o644)
 					o = fsx.Op{K: "Remove", P: "/verif-sub-file"}
 				}
-				before := fsx.Snap(base, "/", fsx.SnapOpts{}).String()
+				before := c12Snap(base, fsx.SnapOpts{}).String()
 				res := senv.Exec(o)
-				after := fsx.Snap(base, "/", fsx.SnapOpts{}).String()
+				after := c12Snap(base, fsx.SnapOpts{}).String()
 				sig := fmt.Sprintf("always-fail|%s|Sub+%s|%s", fsType, o.K, fnName)
 				c.Rep.Case(sig+"|"+res.Err, true)
 				if res.E == nil || before != after {
@@ -350,7 +383,7 @@ func c12History(c *rt.Ctx, fsType string, h int) {
 		all := append([]fsx.Op{}, ops...)
 		all = append(all, fsx.Op{K: "CreateTemp", P: "/tmp", Q: "t*", H: 5}, fsx.Op{K: "F.Write", H: 5, Data: "zz"}, fsx.Op{K: "WriteFile", P: "/w/ro-probe", Data: "x", Perm: 0o644},
 			fsx.Op{K: "Symlink", P: "a", Q: "/w/ro-link"}, fsx.Op{K: "Rename", P: "/w", Q: "/w2"})
-		before := fsx.Snap(base, "/", fsx.SnapOpts{Mtime: true}).String()
+		before := c12Snap(base, fsx.SnapOpts{Mtime: true}).String()
 		for i, o := range all {
 			if o.K == "harness:RemoveLastTemp" {
 				continue
@@ -359,7 +392,7 @@ func c12History(c *rt.Ctx, fsType string, h int) {
 			if fatalRes(res) {
 				break
 			}
-			after := fsx.Snap(base, "/", fsx.SnapOpts{Mtime: true}).String()
+			after := c12Snap(base, fsx.SnapOpts{Mtime: true}).String()
 			c.Rep.Case(fmt.Sprintf("read-only-plan|%s|%s|%s", fsType, o.K, res.Err), true)
 			if after != before {
 				c.Disagree(fmt.Sprintf("read-only-plan|%s|%s|base-changed", fsType, o.K), fmt.Sprintf("FailFS(%s) with ReadOnlyFunc: %s changed the base: %v", fsType, o, diffText(before, after)), replay("ReadOnlyFunc", min3(i, len(text)-1)))
@@ -370,7 +403,7 @@ func c12History(c *rt.Ctx, fsType string, h int) {
 			if sub, err := ff.Sub("/w"); err == nil {
 				senv := fsx.NewEnv(sub)
 				res := senv.Exec(fsx.Op{K: "Mkdir", P: "/verif-ro-sub", Perm: 0o755})
-				after := fsx.Snap(base, "/", fsx.SnapOpts{Mtime: true}).String()
+				after := c12Snap(base, fsx.SnapOpts{Mtime: true}).String()
 				c.Rep.Case("read-only-plan|MemFS|Sub+Mkdir|"+res.Err, true)
 				if after != before {
 					c.Disagree("read-only-plan|MemFS|Sub+Mkdir|base-changed", "FailFS(MemFS) with ReadOnlyFunc: Mkdir through the file system returned by FailFS.Sub changed the base", nil)
